@@ -67,6 +67,10 @@ def pbn_of(hands, first):
     return first + ':' + ' '.join(hand(hands[(i + k) % 4]) for k in range(4))
 
 
+# every op is a call of a function whose result must not depend on earlier calls: also evaluated in other orders
+PURE_OPS = True
+
+
 def cases(ctx):
     rng = ctx.rng
     n = 250 if ctx.quick else 2500
@@ -199,6 +203,15 @@ def impl_exec(ops):
                 for p in P:
                     assert len(b[p]) == 52 and all(v in (0, 1) for v in b[p])
                     assert nb[p].shape == (52,) and [int(v) for v in nb[p]] == list(b[p]), 'np/tuple disagree'
+                # the dtype parameter is public: every element type must give the same vectors, four separate arrays,
+                # and decode back to the hands
+                for dt in (np.int8, np.uint8, np.int64, np.float32, bool):
+                    nd = h.to_np_binary(dtype=dt)
+                    for p in P:
+                        assert nd[p].dtype == np.dtype(dt) and [int(v) for v in nd[p]] == list(b[p]), f'np vector differs for dtype {dt}'
+                    assert len({id(nd[p]) for p in P}) == 4, 'seats share one array'
+                    back = Hands.convert_np_binary(nd)
+                    assert all({int(c) for c in back[p]} == {int(c) for c in h[p]} for p in P), f'np round trip fails for dtype {dt}'
                 r = ' '.join(''.join(str(v) for v in b[p]) for p in P)
             elif t[0] == 'H.unbin':
                 r = show(Hands.convert_binary({p: tuple(int(ch) for ch in v) for p, v in zip(P, t[1:5])}))
